@@ -431,7 +431,7 @@ pub fn check_state(w: &World, hist: &[Op], singles: &[Q], pairs: &[Q], t: &mut T
 }
 
 pub fn run(ctx: &Ctx) {
-    let depth = ctx.tier.pick(4usize, 6usize);
+    let depth = ctx.eff_tier().pick(4usize, 6usize);
     ctx.set_rule("explicit-state BFS over histories of add-authoritative / add-cached / remove / clear on a 15-record menu (owners foo.bar.local, foobar.local, bar.local, local, _my.local, _mysrv.local, a._mysrv.local; classes IN/CH; A, AAAA, SRV, TXT, PTR) to the stated depth, each transition executed on the real ResourceRecordManager; states deduplicated by (record -> kind map, owners touched since the last clear); in every state every single question over 8 owners x 6 types x 3 classes x unicast bit and every ordered pair from a 24-question menu goes through the real build_reply and is judged by the reply model. non-trivial = state holds at least one record");
     ctx.assume("state abstraction: the real trie's shape is a function of the set of keys inserted since the last clear, which the fingerprint includes; validated by the insertion-order differential (every permutation of every <=3-record store gives the same verdicts)");
     ctx.assume("answers are compared as sets; optional subdomain answers are allowed, answers at the question's own name are required");
@@ -520,7 +520,7 @@ pub fn run(ctx: &Ctx) {
             for ki in 0..2 {
                 for kj in 0..2 {
                     perms.push(vec![kinds(i, ki), kinds(j, kj)]);
-                    if ctx.tier == crate::engine::Tier::Thorough {
+                    if ctx.eff_tier() == crate::engine::Tier::Thorough {
                         for l in 0..n {
                             if l != i && l != j {
                                 perms.push(vec![kinds(i, ki), kinds(j, kj), kinds(l, 0)]);
@@ -546,8 +546,8 @@ pub fn run(ctx: &Ctx) {
         }
     });
     ctx.space("insertion orders: every ordered pair (and triple, thorough) of distinct records x kinds, without deduplication", perms.len() as u64, "complete");
-    responder_stage(ctx, false, ctx.tier == crate::engine::Tier::Thorough);
-    responder_stage(ctx, true, ctx.tier == crate::engine::Tier::Thorough);
+    responder_stage(ctx, false, ctx.eff_tier() == crate::engine::Tier::Thorough);
+    responder_stage(ctx, true, ctx.eff_tier() == crate::engine::Tier::Thorough);
     // odd-shaped owners and large stores
     {
         let mut cases: Vec<(&str, usize, Vec<usize>, Vec<usize>)> = Vec::new();
@@ -575,6 +575,13 @@ pub fn run(ctx: &Ctx) {
             // the registered record first and last, everything else cached
             cases.push(("bucket", n, vec![0, n + 1], (1..=n).collect()));
             cases.push(("bucket", n, vec![n + 1, 0], (1..=n).rev().collect()));
+        }
+        for n in [40usize, 255, 256, 257, 600] {
+            let len = extra_world("types", n).0.menu.len();
+            let all: Vec<usize> = (0..len).collect();
+            cases.push(("types", n, all.clone(), vec![]));
+            cases.push(("types", n, all.iter().copied().filter(|i| i % 3 != 0).collect(), all.iter().copied().filter(|i| i % 3 == 0).collect()));
+            cases.push(("types", n, all.iter().rev().copied().filter(|i| i % 2 == 0).collect(), all.iter().rev().copied().filter(|i| i % 2 == 1).collect()));
         }
         {
             let n_cyc = extra_world("cyclic", 0).0.menu.len();
@@ -619,7 +626,7 @@ pub fn run(ctx: &Ctx) {
                 ctx.violations(f);
             }
         });
-        ctx.space(&format!("odd and large stores: {} stores (14 odd-shaped records singly, in ordered pairs, all together and all-but-one; owners with labels of 256/300/260 bytes, binary labels, a dot inside a label, the root, SRV at 1- and 2-label owners, the DNS-SD meta-query name; one owner name holding 31..1100 network-learned records next to a registered one; 10..300 hosts x (A, SRV, PTR) fully authoritative and with every fifth record cached; PTR / CNAME / SRV records that refer to each other in cycles of length 1, 2 and 3, run in a child process) x every question over the world's names x 5 types x 2 classes", cases.len()), total.load(std::sync::atomic::Ordering::Relaxed), "complete");
+        ctx.space(&format!("odd and large stores: {} stores (14 odd-shaped records singly, in ordered pairs, all together and all-but-one; owners with labels of 256/300/260 bytes, binary labels, a dot inside a label, the root, SRV at 1- and 2-label owners, the DNS-SD meta-query name; one owner name holding 31..1100 network-learned records next to a registered one; one owner name holding records of 40..600 distinct TYPE codes; 10..300 hosts x (A, SRV, PTR) fully authoritative and with every fifth record cached; PTR / CNAME / SRV records that refer to each other in cycles of length 1, 2 and 3, run in a child process) x every question over the world's names x 5 types x 2 classes", cases.len()), total.load(std::sync::atomic::Ordering::Relaxed), "complete");
         ctx.sample(json!({"kind": "extra", "world": "odd", "n": 0, "auth": [0, 1], "cached": []}));
     }
 }
@@ -786,6 +793,54 @@ pub fn responder_stage(ctx: &Ctx, asynchronous: bool, thorough: bool) {
         }
     };
     phase_questions(&model, &mut t, &mut n, &mut id, "all registered");
+    // query datagrams of every size class up to the 9000-byte mDNS limit: one question that a
+    // registered record answers, first or last among questions nothing answers
+    {
+        let hit = QN { name: w.menu[0].name.clone(), qtype: w.menu[0].rdata.code(), qclass: 1, unicast: true };
+        let filler = |i: usize, extra: usize| QN { name: rename(&RefName(vec![B(format!("f{:03}{}", i, "x".repeat(extra)).into_bytes()), B(b"local".to_vec())])), qtype: 1, qclass: 1, unicast: true };
+        let enc_len = |qs: &[QN]| {
+            let mut q = RefPacket::default();
+            for x in qs {
+                q.questions.push(RefQ { name: x.name.clone(), qtype: x.qtype, qclass: x.qclass, unicast: true });
+            }
+            q.encode(0).len()
+        };
+        let one = enc_len(&[filler(0, 0)]) - 12;
+        for size in [600usize, 1472, 1500, 2048, 4000, 4095, 4096, 4097, 4098, 4200, 5000, 6000, 8000, 8192, 8900, 8999, 9000] {
+            for hit_last in [false, true] {
+                let base = enc_len(std::slice::from_ref(&hit));
+                if size < base + one {
+                    continue;
+                }
+                let k = (size - base) / one;
+                let pad = (size - base) % one;
+                let mut qs: Vec<QN> = (0..k).map(|i| filler(i, if i + 1 == k { pad.min(50) } else { 0 })).collect();
+                if hit_last {
+                    qs.push(hit.clone());
+                } else {
+                    qs.insert(0, hit.clone());
+                }
+                let actual = enc_len(&qs);
+                id = id.wrapping_add(1);
+                n += 1;
+                t.evals += 1;
+                t.transitions += 1;
+                let mut replies = ask(&qs, id, 500);
+                if replies.is_empty() {
+                    replies = ask(&qs, id, 800);
+                }
+                let reply = replies.into_iter().next().map(|p| (p, None));
+                if reply.is_some() {
+                    t.nontrivial += 1;
+                }
+                let case = json!({"kind": "responder-stage", "async": asynchronous, "phase": "large query", "question": hit, "datagram_bytes": actual, "questions": qs.len(), "hit_last": hit_last});
+                for (tag, d) in judge_reply(&w, &model, &qs, id, reply) {
+                    t.outcome("responder-reply-wrong");
+                    ctx.violation(finding(format!("C13|responder-stage|{}|large-query|{}", if asynchronous { "tokio" } else { "sync" }, tag), format!("[query datagram of {} bytes, {} questions, the answerable one {}] {}", actual, qs.len(), if hit_last { "last" } else { "first" }, crate::engine::truncate(&d, 600)), case.clone()));
+                }
+            }
+        }
+    }
     // remove every third record through the public API, ask again; clear, ask again
     for i in (0..w.menu.len()).filter(|i| i % 3 == 0) {
         match &mut responder {
@@ -806,7 +861,7 @@ pub fn responder_stage(ctx: &Ctx, asynchronous: bool, thorough: bool) {
     t.outcome("responder-stage");
     ctx.merge(t);
     ctx.set_extra(key, json!({"ran": true, "queries": n}));
-    ctx.space(&format!("running {} SimpleMdnsResponder over loopback multicast: the 15-record menu registered through add_resource, every owner x question types x classes asked with the unicast bit, replies decoded by the reference decoder and judged by the reply model; again after remove_resource_record on a third of the records{}", if asynchronous { "tokio" } else { "sync" }, if thorough { " and after clear" } else { "" }), n, "complete for the listed questions");
+    ctx.space(&format!("running {} SimpleMdnsResponder over loopback multicast: the 15-record menu registered through add_resource, every owner x question types x classes asked with the unicast bit, query datagrams of 600..9000 bytes (17 sizes incl. 4095..4098 and 8999/9000) holding one answerable question first or last, replies decoded by the reference decoder and judged by the reply model; again after remove_resource_record on a third of the records{}", if asynchronous { "tokio" } else { "sync" }, if thorough { " and after clear" } else { "" }), n, "complete for the listed questions");
     rt.shutdown_timeout(Duration::from_millis(100));
 }
 
@@ -820,6 +875,7 @@ pub fn extra_world(kind: &str, n: usize) -> (World, Vec<QN>) {
     let arec = |owner: RefName, ip: u32| RefRR { name: owner, class: 1, cache_flush: false, ttl: 120, rdata: typed(1, vec![Val::U32(ip)]) };
     let mut menu: Vec<RefRR> = Vec::new();
     let mut qnames: Vec<RefName> = Vec::new();
+    let mut extra_qtypes: Vec<u16> = Vec::new();
     if kind == "odd" {
         let long = |prefix: &[u8], extra: usize| {
             let mut l = prefix.to_vec();
@@ -856,6 +912,32 @@ pub fn extra_world(kind: &str, n: usize) -> (World, Vec<QN>) {
         menu.push(arec(nm("other.local"), 7));
         qnames.push(nm("host.local"));
         qnames.push(nm("other.local"));
+        qnames.push(nm("local"));
+    } else if kind == "types" {
+        // one owner name holding records of hundreds of DISTINCT types (the library has no
+        // variant for most of them), next to ordinary ones
+        menu.push(arec(nm("host.local"), 0xc0a8_010b));
+        menu.push(RefRR { name: nm("host.local"), class: 1, cache_flush: false, ttl: 120, rdata: typed(16, vec![Val::Strs(vec![B(b"k=v".to_vec())])]) });
+        menu.push(srv(nm("host.local"), 9, "host.local"));
+        let mut used = 0usize;
+        let mut i = 0usize;
+        while used < n && i < 4000 {
+            let code = 300u16 + (i as u16) * 13;
+            i += 1;
+            if !crate::bind::library_has_no_variant_for(code) {
+                continue;
+            }
+            extra_qtypes.push(code);
+            let owner = if used % 5 == 4 { nm("alt.local") } else { nm("host.local") };
+            menu.push(RefRR { name: owner, class: 1, cache_flush: false, ttl: 120, rdata: RefRData::Opaque { code, data: B(vec![used as u8, (used >> 8) as u8, 1]) } });
+            used += 1;
+        }
+        let keep = [0usize, extra_qtypes.len() / 2, extra_qtypes.len().saturating_sub(1), 4.min(extra_qtypes.len().saturating_sub(1))];
+        let chosen: Vec<u16> = keep.iter().filter_map(|k| extra_qtypes.get(*k).copied()).collect();
+        extra_qtypes = chosen;
+        extra_qtypes.push(299);
+        qnames.push(nm("host.local"));
+        qnames.push(nm("alt.local"));
         qnames.push(nm("local"));
     } else if kind == "cyclic" {
         // records that refer to each other in cycles: anything that follows references must stop
@@ -895,7 +977,7 @@ pub fn extra_world(kind: &str, n: usize) -> (World, Vec<QN>) {
     qnames.dedup();
     let mut qs = Vec::new();
     for name in qnames {
-        for qtype in [1u16, 33, 12, 16, 255] {
+        for qtype in [1u16, 33, 12, 16, 255].into_iter().chain(extra_qtypes.iter().copied()) {
             for qclass in [1u16, 255] {
                 qs.push(QN { name: name.clone(), qtype, qclass, unicast: qtype == 33 });
             }
@@ -938,7 +1020,7 @@ pub fn check_extra(kind: &str, n: usize, auth: &[usize], cached: &[usize]) -> (V
             }
         }
         let mut asked = qs.len() as u64;
-        if kind == "scale" && bad.is_empty() {
+        if (kind == "scale" || kind == "types") && bad.is_empty() {
             // churn: remove every third record, ask again; register them again, ask again
             let gone: Vec<usize> = model.recs.keys().copied().filter(|i| i % 3 == 1).collect();
             for phase in 0..2 {
